@@ -1,4 +1,5 @@
 import O2P.Model.Gate
+import O2P.Lemmas.Cover
 /-!
 # C06 — gate inference explains all observed successor sets; exact without mixed OR
 The quantifier of C06 is finite and is enumerated by `domain`: `domain_counts` (kernel-checked) gives
@@ -40,6 +41,56 @@ theorem family_plain :
 /-- sizes of the exactness sub-class inside the domain (mixed ORs and ANDs over two ORs excluded) -/
 theorem subclass_counts :
     ((domain 4).filter inSubclass).length = 112 ∧ ((domain 5).filter inSubclass).length = 943 := by
+  decide +kernel
+
+/-! ### the AND-under-OR recovery (`get_weighted_cover`, tel2puml/utils.py 14-60) -/
+
+/-- **C06, the cover step**: whichever maximal candidate Python's `max` returns at each round (the iteration
+order of a set depends on the hash seed), a cover that `get_weighted_cover` returns
+* consists of observed sets,
+* is pairwise disjoint,
+* covers the universe of the OR gate, and
+* explains every observed set: each of its events lies in a cover member that is wholly inside the set —
+  the set is the union of the AND groups it contains, so `OR(AND(group)…)` admits it. -/
+theorem cover_spec (es0 : List (List String)) (u : List String) (c : List (List String))
+    (h : some c ∈ weightedCover es0 u) :
+    (∀ p ∈ c, p ∈ es0) ∧
+    (c.Pairwise fun a b => ∀ x, ¬ (x ∈ a ∧ x ∈ b)) ∧
+    (∀ x ∈ u, ∃ p ∈ c, x ∈ p) ∧
+    (∀ e ∈ es0, sameS e u = false → ∀ x ∈ e, ∃ p ∈ c, (∀ y ∈ p, y ∈ e) ∧ x ∈ p) := by
+  unfold weightedCover at h
+  simp only at h
+  by_cases hes : (es0.filter fun s => !sameS s u).isEmpty = true
+  · simp [hes] at h
+  · simp only [hes, Bool.false_eq_true, if_false, List.mem_map] at h
+    obtain ⟨r, hr, hb⟩ := h
+    cases r with
+    | none => simp at hb
+    | some c' =>
+      simp only [Option.bind_some] at hb
+      by_cases hck : checkCover (es0.filter fun s => !sameS s u) c' = true
+      · simp only [hck, if_true, Option.some.injEq] at hb
+        subst hb
+        obtain ⟨g1, g2, _⟩ := greedy_spec _ _ u [] c' hr
+        simp only [checkCover, Bool.and_eq_true, List.all_eq_true] at hck
+        refine ⟨?_, pairwiseDisjoint_spec c' hck.2, g2, ?_⟩
+        · intro p hp
+          rcases g1 p hp with h | h
+          · simp at h
+          · exact (List.mem_filter.mp h).1
+        · intro e he hne x hx
+          have hmem : e ∈ es0.filter fun s => !sameS s u := List.mem_filter.mpr ⟨he, by simp [hne]⟩
+          have hemp := hck.1 e hmem
+          rcases reduceBy_spec e c' e (fun y hy => hy) x hx with h | ⟨p, hp, h1, h2⟩
+          · rw [List.isEmpty_iff.mp hemp] at h; simp at h
+          · exact ⟨p, hp, subsetS_iff.mp h1, h2⟩
+      · simp [hck] at hb
+
+/-- non-vacuity: the family of `OR(AND(a,b), c)` has the cover `{c}, {a,b}` under every choice; with the extra
+observation `{a}` every choice ends in `None` (the greedy members overlap) -/
+example :
+    weightedCover [["a", "b"], ["c"], ["a", "b", "c"]] ["a", "b", "c"] = [some [["c"], ["a", "b"]]] ∧
+    (weightedCover [["a", "b"], ["c"], ["a", "b", "c"], ["a"]] ["a", "b", "c"]).all Option.isNone = true := by
   decide +kernel
 
 end O2P.Gate
